@@ -636,13 +636,28 @@ fn clones(case: &mut Case) -> Result<(), String> {
     let steps = case.src.urange(2, 14);
     let mut log: Vec<String> = Vec::new();
     let (mut na, mut nb) = (0, 0);
+    // the copy is made by clone() or by Clone::clone_from into an existing object of another shape
+    let via_clone_from = case.src.below(3) == 0;
+    if via_clone_from {
+        case.class("clone made by clone_from into an existing object");
+    }
     match kind {
         0 => {
             let n = 1 + case.src.usize_below(6);
             let mut a = rv(&mut case.src, n);
             let mut ma = a.vec.clone();
-            let mut b = a.clone();
+            let mut b = if via_clone_from {
+                let n2 = case.src.usize_below(8);
+                let mut d = rv(&mut case.src, n2);
+                d.clone_from(&a);
+                d
+            } else {
+                a.clone()
+            };
             let mut mb = ma.clone();
+            if b.vec != mb || b.size() != n {
+                return Err(format!("Vector clone (clone_from = {}) differs from its original: {:?} vs {:?}", via_clone_from, b.vec, mb));
+            }
             for _ in 0..steps {
                 let on_a = case.src.coin();
                 let (v, m) = if on_a { (&mut a, &mut ma) } else { (&mut b, &mut mb) };
@@ -665,8 +680,19 @@ fn clones(case: &mut Case) -> Result<(), String> {
             let (r, c) = (1 + case.src.usize_below(4), 1 + case.src.usize_below(4));
             let mut a = rm(&mut case.src, r, c);
             let mut ma = from_matrix(&a);
-            let mut b = a.clone();
+            let mut b = if via_clone_from {
+                // into an existing matrix: the transposed shape (same number of elements) or any other
+                let (r2, c2) = if case.src.coin() { (c, r) } else { (1 + case.src.usize_below(4), 1 + case.src.usize_below(4)) };
+                let mut d = rm(&mut case.src, r2, c2);
+                d.clone_from(&a);
+                d
+            } else {
+                a.clone()
+            };
             let mut mb = ma.clone();
+            if b.rows() != r || b.cols() != c || from_matrix(&b) != mb || !(b == a) {
+                return Err(format!("Matrix clone (clone_from = {}) of a {}x{} matrix is {}x{} with entries {:?}, original {:?}", via_clone_from, r, c, b.rows(), b.cols(), from_matrix(&b), mb));
+            }
             for _ in 0..steps {
                 let on_a = case.src.coin();
                 let (v, m) = if on_a { (&mut a, &mut ma) } else { (&mut b, &mut mb) };
@@ -690,8 +716,18 @@ fn clones(case: &mut Case) -> Result<(), String> {
             let (m1, m2) = (case.src.usize_below(n), case.src.usize_below(n));
             let mut a = band(&mut case.src, n, m1, m2);
             let mut ma = from_matrix(a.compact());
-            let mut b = a.clone();
+            let mut b = if via_clone_from {
+                let (n2, p1, p2) = if case.src.coin() { (n, m2, m1) } else { let k = 2 + case.src.usize_below(5); (k, case.src.usize_below(k), case.src.usize_below(k)) };
+                let mut d = band(&mut case.src, n2, p1, p2);
+                d.clone_from(&a);
+                d
+            } else {
+                a.clone()
+            };
             let mut mb = ma.clone();
+            if b.size() != n || b.size_below() != m1 || b.size_above() != m2 || from_matrix(b.compact()) != mb {
+                return Err(format!("Banded clone (clone_from = {}) of (n,m1,m2) = ({},{},{}) reports ({},{},{}) / differs in its band", via_clone_from, n, m1, m2, b.size(), b.size_below(), b.size_above()));
+            }
             for _ in 0..steps {
                 let on_a = case.src.coin();
                 let (v, m) = if on_a { (&mut a, &mut ma) } else { (&mut b, &mut mb) };
@@ -714,8 +750,18 @@ fn clones(case: &mut Case) -> Result<(), String> {
             let mut a = tri(&mut case.src, n);
             let diag = |t: &Tridiagonal<R>| -> (Vec<R>, Vec<R>, Vec<R>) { (t.subdiagonal().vec.clone(), t.maindiagonal().vec.clone(), t.superdiagonal().vec.clone()) };
             let mut ma = diag(&a);
-            let mut b = a.clone();
+            let mut b = if via_clone_from {
+                let n2 = 2 + case.src.usize_below(5);
+                let mut d = tri(&mut case.src, n2);
+                d.clone_from(&a);
+                d
+            } else {
+                a.clone()
+            };
             let mut mb = ma.clone();
+            if b.size() != n || diag(&b) != mb {
+                return Err(format!("Tridiagonal clone (clone_from = {}) of order {} has order {} / different diagonals", via_clone_from, n, b.size()));
+            }
             for _ in 0..steps {
                 let on_a = case.src.coin();
                 let (v, m) = if on_a { (&mut a, &mut ma) } else { (&mut b, &mut mb) };
@@ -739,8 +785,18 @@ fn clones(case: &mut Case) -> Result<(), String> {
             let mut a = Polynomial::<R>::new(rv(&mut case.src, n).vec);
             let co = |p: &Polynomial<R>| -> Vec<R> { (0..p.size()).map(|i| p[i]).collect() };
             let mut ma = co(&a);
-            let mut b = a.clone();
+            let mut b = if via_clone_from {
+                let n2 = 1 + case.src.usize_below(8);
+                let mut d = Polynomial::<R>::new(rv(&mut case.src, n2).vec);
+                d.clone_from(&a);
+                d
+            } else {
+                a.clone()
+            };
             let mut mb = ma.clone();
+            if co(&b) != mb {
+                return Err(format!("Polynomial clone (clone_from = {}) has coefficients {:?}, original {:?}", via_clone_from, co(&b), mb));
+            }
             for _ in 0..steps {
                 let on_a = case.src.coin();
                 let (v, m) = if on_a { (&mut a, &mut ma) } else { (&mut b, &mut mb) };
@@ -873,7 +929,7 @@ impl Prop for C20 {
              row/column accessors, setters and fills; multiply; the dense solver entries, inverse/determinant/LU on non-square input; banded/tridiagonal solve, product, constructors, fill_band, band index; sparse from_triplets, get, insert, multiply, \
              transpose_multiply, the five iterative solvers (rows != b, non-square, b != x, bad itol); mesh node/variable accessors; polynomial index - each with every pair of sizes (a, b) in 0..=6 x 0..=6 and each out-of-range variant (size, size+1, usize::MAX): \
              mismatched => the call must panic (catch_unwind) and a &mut receiver must equal its snapshot afterwards; a == b => the conformable call must return. The raw (i,j) operators of Matrix, Banded (inside the band) and Mesh2D are excluded. \
-             family 1: random interleavings of mutations on a value and its clone (Vector, Matrix, Banded, Tridiagonal, Polynomial, Complex) against two independent models; family 2: by-reference operators and &self methods leave operands bitwise unchanged and \
+             family 1: random interleavings of mutations on a value and its clone - made by clone() or by clone_from into an existing object of another (one time in two: same-size, transposed) shape - (Vector, Matrix, Banded, Tridiagonal, Polynomial, Complex) against two independent models; family 2: by-reference operators and &self methods leave operands bitwise unchanged and \
              consuming forms return identical results. Non-trivial: every mismatched table case; clone histories with >= 3 mutations on each side; every by-reference sweep. distinct = distinct decoded choice sequence.",
             N_ENTRIES
         )
